@@ -13,6 +13,8 @@ Sub-checks (all exhaustive over the stated finite spaces, all on the real code i
   bisc_trunc E5  every byte prefix of written BiSC files.
   db_trunc   E5  every byte prefix of stored automaton files.
   malformed  E1  fixed list of malformed / missing inputs of read_bisc_file.
+  elsewhere  E1  a path names one file: never-written files named like the shipped data sets under
+                 every path form; one base name written to several directories.
   roundtrip  E1  write -> read for the twelve named library predicates, and every ordered pair
                  (first written, then overwritten) of them under one name.
   shipped    E1  the shipped data sets: partition of S_k for every level, equal to the named property
@@ -439,6 +441,8 @@ class BiscModel:
         self.ns = list(params["ns"])
         self.props = list(params["props"])
         self.files = [(nm, kd, n) for nm in self.names for n in self.ns for kd in ("good", "bad")]
+        # a name may carry a directory ("d/setA"): those directories exist, empty, from the start
+        self.dirs = tuple(sorted({os.path.dirname(nm) for nm in self.names if os.path.dirname(nm)}))
         self.exp = {(pi, n, kd): _expected(PROPS[pi][1], n, kd)
                     for pi in self.props for n in self.ns for kd in ("good", "bad")}
 
@@ -448,7 +452,7 @@ class BiscModel:
 
     def build(self, hist):
         Perm, _, B = _lib()
-        _scratch("bisc")
+        _scratch("bisc", self.dirs)
         _reset()
         model = {}
         viols = []
@@ -1037,6 +1041,91 @@ def _malformed_case(part, idx):
 
 
 # --------------------------------------------------------------------------------------------
+# "elsewhere": a path names ONE file - nothing of the same base name in another place may answer
+# --------------------------------------------------------------------------------------------
+
+def _shipped_stems():
+    return sorted(fn[:-len(".json")] for fn in os.listdir(_SHIPPED) if fn.endswith(".json"))
+
+
+ELSEWHERE_FORMS = ["bare", "subdir", "dotdot", "absolute", "chdir-sub", "chdir-sub-dotdot", "missing-dir"]
+
+
+def _elsewhere_missing_case(part, stem):
+    """A never-written file whose base name is that of a data set shipped with the library, asked
+    for in an empty scratch directory under every path form: must be reported missing."""
+    Perm, _, B = _lib()
+    top = _scratch("elsewhere", ("sub",))
+    _reset()
+    for form in ELSEWHERE_FORMS:
+        os.chdir(os.path.join(top, "sub") if form.startswith("chdir-sub") else top)
+        path = {"bare": stem, "subdir": "sub/" + stem, "dotdot": "sub/../" + stem,
+                "absolute": os.path.join(top, stem), "chdir-sub": stem,
+                "chdir-sub-dotdot": "../" + stem, "missing-dir": "no_such_dir/" + stem}[form]
+        v, oc = _check_read(B, Perm, path, "absent", None)
+        part.outcomes.add("elsewhere:" + oc)
+        part.add(1, 1)
+        if v is not None:
+            v["file"] = stem
+            part.violation("elsewhere", {"family": "missing", "stem": stem, "form": form}, v)
+            break
+    os.chdir(VERIF)
+
+
+ELSEWHERE_LOCS = [".", "a", "b"]
+ELSEWHERE_PROPS = [0, 1, 4]          # PROPS index written at the location of the same index
+
+
+def _elsewhere_dirs_case(part, order):
+    """Data sets of ONE base name written (with different content) to the locations listed in
+    `order`, in that order; then every location is read from two working directories, by relative
+    and by absolute path: the answer is that location's data, or 'missing'."""
+    Perm, _, B = _lib()
+    top = _scratch("elsewhere", ("a", "b"))
+    _reset()
+    n = 3
+    case = {"family": "directories", "written_in_order": list(order)}
+    for loc in order:
+        os.chdir(top)
+        _, exc, _ = _call(B.write_bisc_files, n, PROPS[ELSEWHERE_PROPS[ELSEWHERE_LOCS.index(loc)]][1],
+                          os.path.normpath(os.path.join(loc, "x")))
+        if exc is not None:
+            part.violation("elsewhere", case, {"why": "write raised", "exception": repr(exc)})
+            return
+    for cwd in (".", "a"):
+        for loc in ELSEWHERE_LOCS:
+            for kind in ("good", "bad"):
+                target = os.path.join(top, loc, "x_%s_len%d" % (kind, n))
+                for how in ("relative", "absolute"):
+                    os.chdir(os.path.join(top, cwd))
+                    path = os.path.relpath(target, os.path.join(top, cwd)) if how == "relative" else target
+                    if loc in order:
+                        exp = _expected(PROPS[ELSEWHERE_PROPS[ELSEWHERE_LOCS.index(loc)]][1], n, kind)
+                        v, oc = _check_read(B, Perm, path, "data", exp)
+                    else:
+                        v, oc = _check_read(B, Perm, path, "absent", None)
+                    part.outcomes.add("elsewhere:" + oc)
+                    part.add(1, 1 if 0 < len(order) < 3 else 0)
+                    if v is not None:
+                        v.update({"cwd": cwd, "path": path})
+                        part.violation("elsewhere", case, v)
+                        os.chdir(VERIF)
+                        return
+    os.chdir(VERIF)
+
+
+def shard_elsewhere(shard):
+    part = Partial()
+    for kind, arg in shard:
+        if kind == "missing":
+            _case(part, _elsewhere_missing_case, arg)
+        else:
+            _case(part, _elsewhere_dirs_case, tuple(arg))
+    os.chdir(VERIF)
+    return part
+
+
+# --------------------------------------------------------------------------------------------
 # the twelve named predicates of the library
 # --------------------------------------------------------------------------------------------
 
@@ -1329,6 +1418,18 @@ def _bisc_initials():
             (("w", "setB", 2, 0), ("d", "setB", "bad", 2))]
 
 
+def _bisc_dir_params(quick):
+    """The same base name in two directories: whatever the reader or the writer looks up by base
+    name, or in a second location, makes one of them answer for the other."""
+    return {"names": ["setA", "d/setA"], "ns": [2, 3], "props": [0, 4] if quick else [0, 1, 4]}
+
+
+def _bisc_dir_initials():
+    return [(),
+            (("w", "d/setA", 3, 0),),
+            (("w", "setA", 3, 0), ("w", "d/setA", 3, 4))]
+
+
 def _subsets(pool, maxsize):
     return [[list(p) for p in c] for r in range(1, maxsize + 1) for c in itertools.combinations(pool, r)]
 
@@ -1406,20 +1507,26 @@ def run(ctx, only=None):
     states = transitions = traces = 0
 
     if want("bisc_hist"):
-        params = _bisc_params(quick)
-        depth = 3 if quick else 4
-        st = pbfs(ctx, "bisc", params, _bisc_initials(), depth)
-        states += st["states"]
-        transitions += st["transitions"]
-        traces += st["executions"]
-        ctx.nontrivial += st["nontrivial_states"]
-        ctx.bounds["bisc_hist"] = {"depth_beyond_each_initial_state": depth, "params": params,
-                                   "initial_histories": [list(h) for h in _bisc_initials()],
-                                   "props": [PROPS[i][0] for i in params["props"]]}
-        for h in st["samples"]:
-            ctx.sample({"bisc_history": h})
-        ctx.section("bisc_hist", states=st["states"], transitions=st["transitions"], per_depth=st["per_depth"])
-        bisc_hists = st["histories"]
+        plan = [("two names in the working directory", _bisc_params(quick), _bisc_initials(), 3 if quick else 4),
+                ("one name in the working directory and in a sub-directory", _bisc_dir_params(quick),
+                 _bisc_dir_initials(), 3)]
+        ctx.bounds["bisc_hist"] = []
+        bisc_hists = None
+        for label, params, inits, depth in plan:
+            st = pbfs(ctx, "bisc", params, inits, depth)
+            states += st["states"]
+            transitions += st["transitions"]
+            traces += st["executions"]
+            ctx.nontrivial += st["nontrivial_states"]
+            ctx.bounds["bisc_hist"].append({"alphabet": label, "depth_beyond_each_initial_state": depth,
+                                            "params": params, "initial_histories": [list(h) for h in inits],
+                                            "props": [PROPS[i][0] for i in params["props"]]})
+            for h in st["samples"][:1]:
+                ctx.sample({"bisc_history": h, "alphabet": label})
+            ctx.section("bisc_hist", alphabet=label, states=st["states"], transitions=st["transitions"],
+                        per_depth=st["per_depth"])
+            if bisc_hists is None:
+                bisc_hists = st["histories"]
     if want("db_hist"):
         params = _db_params(quick)
         DbModel(params)      # reference automata are computed before the workers are forked
@@ -1483,6 +1590,20 @@ def run(ctx, only=None):
             _case(ctx, _malformed_case, idx)
         os.chdir(VERIF)
         ctx.bounds["malformed"] = "%d literal contents + missing file, directory, missing directory" % len(MALFORMED)
+    if want("elsewhere"):
+        e0 = ctx.evals
+        stems = _shipped_stems()
+        orders = [list(o) for r in range(len(ELSEWHERE_LOCS) + 1) for o in itertools.permutations(ELSEWHERE_LOCS, r)]
+        cases = [("missing", st) for st in stems] + [("directories", o) for o in orders]
+        ctx.pmap(shard_elsewhere, [cases[i::NPROC] for i in range(NPROC)])
+        ctx.bounds["elsewhere"] = {
+            "missing": "never-written file named like each of the %d shipped data files x path forms %s"
+                       % (len(stems), ELSEWHERE_FORMS),
+            "directories": "one base name written to every ordered selection of the locations %s (%d orders), "
+                           "each location then read from 2 working directories by relative and absolute path"
+                           % (ELSEWHERE_LOCS, len(orders))}
+        traces += ctx.evals - e0
+        ctx.section("elsewhere", evaluations=ctx.evals - e0)
     if want("roundtrip"):
         e0 = ctx.evals
         nmax = 5 if quick else 6
@@ -1547,6 +1668,11 @@ def replay(ctx, rec):
             _case(ctx, _db_trunc_case, tuple(case["perm"]), case.get("prefix_bytes"))
         elif sub == "malformed":
             _case(ctx, _malformed_case, case["input"])
+        elif sub == "elsewhere":
+            if case["family"] == "missing":
+                _case(ctx, _elsewhere_missing_case, case["stem"])
+            else:
+                _case(ctx, _elsewhere_dirs_case, tuple(case["written_in_order"]))
         elif sub == "roundtrip":
             _case(ctx, _roundtrip_case, tuple(case["props"]), case["n"])
         elif sub == "shipped":
